@@ -29,7 +29,10 @@ PlainVar(var) ==
 MCBoundOK(c) ==
   /\ NVariants(c) >= 1
   /\ \A v \in 1..NVariants(c) : NFields(c, v) >= 1
-  /\ NVariants(c) > 1 => \E v \in 1..NVariants(c) : PlainVar(c.variants[v])
+  \* two-variant enums: one variant is the plain `V(P)`, or both have two fields (what one arm binds must not leak
+  \* into -- or be shared with -- the other)
+  /\ NVariants(c) > 1 => (\E v \in 1..NVariants(c) : PlainVar(c.variants[v]))
+                          \/ (\A v \in 1..NVariants(c) : NFields(c, v) = 2 /\ \A i \in FieldIdx(c, v) : c.variants[v].fields[i].ty = "P")
   /\ ~HasTrait(c, "DerefMut") => \A v \in 1..NVariants(c) : DMutMarked(c, v) = {}
 \* a missing or duplicated marker among several fields
 MCSemOK(c) == DerefWellDesignated(c)
